@@ -15,8 +15,8 @@ from verif.common import Ctx, Outcome, Witness
 DOC = "===DOC===\nA::1\n===END===\n"
 SECRET = "===SECRET===\nTOKEN::hunter2\n===END===\n"
 ALLOWED = (".oct.md", ".octave", ".md")
-SYMLINKS = {"dirlink", "inlink", "danglingdir", "filelink.oct.md", "dangling.oct.md", "looplink"}
-DIR_SEGS = ["sub", "new", ".", "..", "dirlink", "inlink", "danglingdir", ""]
+SYMLINKS = {"dirlink", "inlink", "danglingdir", "filelink.oct.md", "dangling.oct.md", "looplink", "~"}
+DIR_SEGS = ["sub", "new", ".", "..", "dirlink", "inlink", "danglingdir", "", "~"]  # "~": a directory link literally named ~ (a validator that expands the user's home checks another path than the one that is opened)
 FILE_SEGS = ["ok.oct.md", "x.oct.md", "x.octave", "x.md", "x.txt", "x.OCT.MD", "x.oct.md.txt", "x.tar.oct.md", "noext", "filelink.oct.md", "dangling.oct.md", "looplink", "a\x00b.oct.md", "L" * 300 + ".oct.md", "x.oct.md/", ".oct.md", "..", "x.md "]
 
 
@@ -34,6 +34,7 @@ def build_tree(root: str) -> None:
     os.symlink("nowhere.oct.md", os.path.join(sb, "dangling.oct.md"))
     os.symlink("looplink", os.path.join(sb, "looplink"))
     os.symlink("../../outside", os.path.join(sb, "sub", "dirlink"))
+    os.symlink("../outside", os.path.join(sb, "~"))
 
 
 def snapshot(root: str) -> dict:
@@ -244,7 +245,7 @@ def replay_validator_probe(which: str = ""):
         for name, v in vs.items():
             if which and which != name:
                 continue
-            for rel in ("../outside/secret.oct.md", "dirlink/x.oct.md", "filelink.oct.md", "dangling.oct.md", "danglingdir/x.oct.md", "inlink/ok.oct.md", "x.txt", "sub/../ok.oct.md", "sub/dirlink/x.oct.md", "looplink"):
+            for rel in ("../outside/secret.oct.md", "dirlink/x.oct.md", "filelink.oct.md", "dangling.oct.md", "danglingdir/x.oct.md", "inlink/ok.oct.md", "x.txt", "sub/../ok.oct.md", "sub/dirlink/x.oct.md", "looplink", "~/x.oct.md"):
                 ok, _ = v(os.path.join(sb, rel))
                 if ok:
                     bad.append(f"{name} accepts {rel}")
@@ -265,7 +266,7 @@ def replay_validator_probe(which: str = ""):
             try:
                 for cwd, prefix in ((sb, ""), (os.path.join(sb, "sub"), "../")):
                     os.chdir(cwd)
-                    for rel in ("dirlink/x.oct.md", "filelink.oct.md", "dangling.oct.md", "danglingdir/x.oct.md", "inlink/ok.oct.md", "sub/dirlink/x.oct.md"):
+                    for rel in ("dirlink/x.oct.md", "filelink.oct.md", "dangling.oct.md", "danglingdir/x.oct.md", "inlink/ok.oct.md", "sub/dirlink/x.oct.md", "~/x.oct.md", "~/new.oct.md"):
                         if prefix:
                             continue  # '..' is refused outright; only the sandbox-rooted spelling is meaningful there
                         ok, _ = v(rel)
